@@ -53,6 +53,9 @@ StormFails(t) ==
   \cup If(t.writerStall = 0, "C10:writers-stalled-after-everything-was-cancelled")
   \cup If(t.pullIdOpen = 0, "C10:single-item-subscription-survives-removal")
   \cup If(t.leaked = 0, "C10:goroutine-left-behind")
+  \* LiveGetsAll on real subscriptions: a subscriber that registered (while others were cancelling and writers
+  \* writing) and never cancelled received the write made after all of that
+  \cup If(t.survivorMissed = 0, "C10:live-listener-missed-event")
 
 Fails(t) == IF t.mode = "storm" THEN StormFails(t) ELSE BusFails(t)
 BadLines == { k \in 1..Len(Obs) : Fails(Obs[k]) # {} }
